@@ -25,7 +25,7 @@ def sh(cmd, cwd=None, timeout=None, env=None):
 
 def run(u, repo, tier, build):
     name = u["name"]
-    res = {"unit": name, "engine": "cargo test (bounded; real SQLite + real in-memory back end)", "status": "ok", "obligations": [], "failures": [],
+    res = {"unit": name, "engine": u.get("engine_label", "cargo test (bounded; real code executed)"), "status": "ok", "obligations": [], "failures": [],
            "notes": [], "wall_s": 0.0, "extracts": [], "bounded": []}
     t0 = time.time()
     os.makedirs(SCRATCH_BASE, exist_ok=True)
@@ -46,7 +46,7 @@ def run(u, repo, tier, build):
         with open(os.path.join(scratch, u["append_to"]), "a") as fh:
             fh.write("\n" + open(harness).read())
         env = dict(os.environ, CARGO_NET_OFFLINE="true", CARGO_TARGET_DIR=target)
-        cmd = ["cargo", "test", "--offline", "-p", u["package"], "--lib", u["filter"], "--", "--test-threads", "8"]
+        cmd = ["cargo", "test", "--offline", "-p", u["package"]] + u.get("cargo_args", []) + ["--lib", u["filter"], "--", "--test-threads", "8"]
         res["checker_cmd"] = f"(scratch copy of /repo + {u['harness']} appended to {u['append_to']}) " + " ".join(cmd)
         rc, out, w = sh(cmd, cwd=scratch, env=env, timeout=3000)
         open(os.path.join(build, "bounded-" + name + ".log"), "w").write(out)
@@ -70,13 +70,13 @@ def run(u, repo, tier, build):
                 text = cex.get(t["label"], "(the test failed without a BOUNDED-COUNTEREXAMPLE line; see build/bounded-%s.log)" % name)
                 rp = os.path.join(ROOT, "replays", f"{t['label']}.counterexample.txt")
                 os.makedirs(os.path.dirname(rp), exist_ok=True)
-                open(rp, "w").write(f"# failing scenario found by the bounded check {t['label']} on the real code\n# re-run: append {u['harness']} to {u['append_to']} of a copy of the tree and run\n#   {' '.join(cmd[:7])} {u['filter']}::{t['name']}\n\n{text}\n")
+                open(rp, "w").write(f"# failing scenario found by the bounded check {t['label']} on the real code\n# re-run: append {u['harness']} to {u['append_to']} of a copy of the tree and run\n#   {' '.join(cmd[:cmd.index('--')])}::{t['name']}\n\n{text}\n")
                 res["failures"].append({"label": t["label"], "site": name + "." + t["name"], "message": text[:1500], "line": 0, "replay_file": rp, "counterexample": text[:1500], "replay_confirmed": True})
             else:
                 res["status"] = "undecided"
                 res["notes"].append(f"no verdict for bounded test {t['name']}")
             res["obligations"].append(ob)
-        res["extracts"].append({"id": name, "file": "crates/mdk-sqlite-storage/src/{lib,groups,messages,welcomes}.rs", "item": "impl GroupStorage / MessageStorage / WelcomeStorage / MdkStorageProvider for MdkSqliteStorage (through the trait API)", "kind": "bounded: real code executed, no contract", "src_lines": [0, 0], "src_sha256": "", "rewrites": {}})
+        res["extracts"].append({"id": name, "file": u.get("covers_files", ""), "item": u.get("covers_items", ""), "kind": "bounded: real code executed, no contract", "src_lines": [0, 0], "src_sha256": "", "rewrites": {}})
         return res
     finally:
         fcntl.flock(lock, fcntl.LOCK_UN)
